@@ -38,7 +38,18 @@ TAGS = ["a", "b", "a[0]", "a[1]", "a[3]", "b[2]", "c_1[0]", "A[0]", "a[x]", "a[1
         # first characters other than a lower-case letter, empty / double / two-digit indices
         "_a[0]", "9a[1]", "a[]", "a[1][2]", "a[10]", "b[12]", "Ab[0]", "a_[0]", "a9[1]"]
 BITS = [0, 1, True, False]
-NONBITS = [2, -1, 0.5, "1", None, [0, 2], [[0]], "0", 3, [1, "1"], [None]]
+NONBITS = [2, -1, 0.5, "1", None, [0, 2], [[0]], "0", 3, [1, "1"], [None],
+           # tuples (written {"tup": [...]} in the recorded case): neither a bit nor a list of bits
+           {"tup": [0, 1]}, {"tup": []}, {"tup": [1]}, [0, {"tup": [1, 0]}]]
+
+
+def real(v):
+    """the value a recorded case stands for"""
+    if isinstance(v, dict) and "tup" in v:
+        return tuple(real(x) for x in v["tup"])
+    if isinstance(v, list):
+        return [real(x) for x in v]
+    return v
 
 
 class NotBit(Exception):
@@ -128,7 +139,7 @@ def shot_nontrivial(entries):
 def check_shot(ctx, entries, stratum="shot"):
     from hugr.qsystem.result import QsysShot
 
-    ents = [(t, v) for t, v in entries]
+    ents = [(t, real(v)) for t, v in entries]
     exp = outcome(lambda: model_bits(ents))
     obs = outcome(lambda: QsysShot(ents).to_register_bits())
     ctx.count("monitor:shot-bits")
@@ -247,7 +258,7 @@ def model_bitstrings(shots, strict_names, strict_lengths):
 def check_result(ctx, case, stratum="result"):
     from hugr.qsystem.result import QsysResult, QsysShot
 
-    shots = [[(t, v) for t, v in s] for s in case["shots"]]
+    shots = [[(t, real(v)) for t, v in s] for s in case["shots"]]
     sn, sl = case["strict_names"], case["strict_lengths"]
     if case.get("floats"):
         # values 1.0 / 0.0 (whether they are bits is not stated): what IS stated is that the strings of a result are the
@@ -321,7 +332,7 @@ def check_result(ctx, case, stratum="result"):
 def check_collated(ctx, case, stratum="collate"):
     from hugr.qsystem.result import QsysResult
 
-    shots = [[(t, v) for t, v in s] for s in case["shots"]]
+    shots = [[(t, real(v)) for t, v in s] for s in case["shots"]]
     if case.get("alias"):
         # equal list values of a shot are ONE list object (a result row reported again, a shared nested row)
         ctx.feat("feature:aliased-list-values")
@@ -399,7 +410,7 @@ def run(ctx):
         per = []
         for s in c["shots"]:
             try:
-                per.append(model_bits([(t, v) for t, v in s]))
+                per.append(model_bits([(t, real(v)) for t, v in s]))
             except NotBit:
                 per.append(None)
         nt = len({None if d is None else tuple(sorted((k, len(v)) for k, v in d.items()))
